@@ -193,6 +193,15 @@ def check(repo: Repo, rep: Report) -> None:
     rep.rule("K4-shared-stores-locked", "stores into state shared between the sources, made by code a source thread runs, happen under the "
                                         "combinator's lock (the value combined downstream is the one serialized with the emission)", floor=12)
     m = model_of(repo)
+    rep.rule("K5-one-lock-object", "the lock the combinators serialize on is one object per observable, allocated in Observable.__init__", floor=1)
+    oinit = repo.fn("reactivex/observable/observable.py", "Observable.__init__")
+    ocls = repo.fn("reactivex/observable/observable.py", "Observable")
+    eager = any(isinstance(s.node, ast.Assign) and u(s.node.targets[0]) == "self.lock" and isinstance(s.node.value, ast.Call)
+                and call_name(s.node.value) in ("RLock", "Lock") and not s.ctx.branch for s in sites(oinit))
+    lazy = ocls.child("lock") is not None
+    rep.ob("K5-one-lock-object", oinit, "Observable.__init__: self.lock = threading.RLock() (no lazy `lock` property)", eager and not lazy,
+           "`source.lock` is not allocated once in Observable.__init__ (lazy / cached property): two source threads that reach it first at "
+           "the same time each get their own lock object, and the combinator's critical sections no longer exclude each other")
     for rel, path in COMBINATORS:
         root = repo.fn(rel, path)
         cov = Coverage(root)
